@@ -126,6 +126,7 @@ func canonInput(input string) []string {
 func (r *restoreWrap) Run() (err error) {
 	w := r.w
 	// out-of-band edit just before the (first) restore
+	hadPre := w.pre != ""
 	if w.pre != "" {
 		p := strings.Split(w.pre, "@")
 		w.pre = ""
@@ -139,6 +140,9 @@ func (r *restoreWrap) Run() (err error) {
 		fail = w.restoreFails[0]
 		w.restoreFails = w.restoreFails[1:]
 	}
+	// Felix's view is fresh when this transaction directly follows a successful iptables-save and nobody edited
+	// the table in between
+	fresh := !hadPre && len(w.trace) > 0 && w.trace[len(w.trace)-1] == "S:ok"
 	snapshot := copyChains(w.dp.Chains)
 	before := copyChains(w.dp.Chains)
 	captured := ""
@@ -170,7 +174,39 @@ func (r *restoreWrap) Run() (err error) {
 	}
 	w.trace = append(w.trace, shown+":ok")
 	w.txnOracle(before)
+	if fresh {
+		w.rewriteOracle(before, captured)
+	}
 	return nil
+}
+
+// rewriteOracle: "unchanged chains are not rewritten", evaluated on the real code for one successful
+// transaction computed from a fresh view of the table: a chain that existed before and holds exactly the same
+// rules afterwards must not be named by any line of the transaction (no flush, replace, delete or append).
+func (w *world) rewriteOracle(before map[string][]string, input string) {
+	named := map[string]bool{}
+	for _, l := range strings.Split(input, "\n") {
+		switch {
+		case l == "" || strings.HasPrefix(l, "*") || l == "COMMIT" || strings.HasPrefix(l, "#"):
+		case strings.HasPrefix(l, ":"):
+			named[strings.Split(l[1:], " ")[0]] = true
+		case strings.HasPrefix(l, "--delete-chain "):
+			named[strings.TrimPrefix(l, "--delete-chain ")] = true
+		default:
+			if f := strings.Split(l, " "); len(f) > 1 {
+				named[f[1]] = true
+			}
+		}
+	}
+	for c := range named {
+		rs, ok := before[c]
+		after, ok2 := w.dp.Chains[c]
+		if ok && ok2 && strings.Join(rs, "\n") == strings.Join(after, "\n") {
+			w.h.OracleFail("unchanged-chain-rewritten", "a transaction computed from a fresh view names a chain whose rules it leaves exactly as they were",
+				map[string]any{"chain": c, "rules": rs, "op": w.opDesc})
+		}
+		w.h.Count("rewrite-oracle-chains")
+	}
 }
 
 type saveWrap struct {
